@@ -154,7 +154,9 @@ impl<'a> StateMachine<'a> {
                 self.source = detect_source(&self.line);
                 // Handle (rare) plain `diff -u file1 file2` header. Done here to avoid having
                 // to introduce and handle a Source::DiffUnifiedAmbiguous variant everywhere.
-                if self.line.starts_with("--- ") {
+                // The same ambiguity exists when the `diff -u`/`diff -ru` command line or an
+                // `Only in` line comes first, so count for every plain-diff source.
+                if self.source == Source::DiffUnified {
                     self.minus_line_counter = AmbiguousDiffMinusCounter::prepare_to_count();
                 }
             }
